@@ -81,7 +81,9 @@ func (c *Ctx) name(fn *ssa.Function) string { return c.P.FnName(fn) }
 // ordinal-based construct names: fn/callee#k (k-th call of that callee in fn,
 // in block order). Independent of line numbers.
 func (c *Ctx) siteName(in ssa.Instruction) string {
-	fn := in.Parent()
+	// a site inside a transparent helper is named after the (first) function
+	// the helper was extracted from, so that names survive such extractions
+	fn := c.owner(in)
 	ci, ok := in.(ssa.CallInstruction)
 	if !ok {
 		return c.name(fn) + "/" + instrKind(in)
@@ -97,6 +99,66 @@ func (c *Ctx) siteName(in ssa.Instruction) string {
 		}
 	}
 	return fmt.Sprintf("%s/%s#%d", c.name(fn), n, k)
+}
+
+// owner is the anchor function an instruction is attributed to.
+func (c *Ctx) owner(in ssa.Instruction) *ssa.Function {
+	if tops := c.tops(in); len(tops) > 0 {
+		for _, t := range tops {
+			if t == eng.Scope {
+				return t
+			}
+		}
+		return tops[0]
+	}
+	return in.Parent()
+}
+
+// scope declares fn the anchor under analysis until the returned function is
+// called: helpers shared with other anchors are then read in fn's context.
+func (c *Ctx) scope(fn *ssa.Function) func() {
+	old := eng.Scope
+	eng.Scope = fn
+	return func() { eng.Scope = old }
+}
+
+// ordinalIn: in is the k-th call of its callee in top (deep block order).
+func (c *Ctx) ordinalIn(top *ssa.Function, ci ssa.CallInstruction) int {
+	n := c.P.CalleeName(ci)
+	k := 0
+	for _, x := range eng.Calls(top) {
+		if c.P.CalleeName(x) == n {
+			k++
+			if x == ci {
+				return k
+			}
+		}
+	}
+	return 0
+}
+
+// tabled looks a call site up in an exception table keyed "function/callee"
+// or "function/callee#ordinal". A site inside a helper is covered only if
+// every function the helper is called from has the entry.
+func tabled[T any](c *Ctx, tbl map[string]T, call ssa.CallInstruction) (T, bool) {
+	var out, zero T
+	name := c.P.CalleeName(call)
+	tops := c.tops(call)
+	if len(tops) == 0 {
+		tops = []*ssa.Function{call.Parent()}
+	}
+	for _, top := range tops {
+		key := c.name(top) + "/" + name
+		v, ok := tbl[key]
+		if !ok {
+			v, ok = tbl[fmt.Sprintf("%s#%d", key, c.ordinalIn(top, call))]
+		}
+		if !ok {
+			return zero, false
+		}
+		out = v
+	}
+	return out, true
 }
 
 func instrKind(in ssa.Instruction) string {
@@ -260,15 +322,23 @@ func (c *Ctx) errValueOf(call ssa.CallInstruction) (key string, used bool, has b
 		return "", false, false
 	}
 	if res.Len() == 1 {
-		return v.Name(), len(eng.Referrers(v)) > 0, true
+		return c.reg(v), len(eng.Referrers(v)) > 0, true
 	}
 	for _, r := range eng.Referrers(v) {
 		if e, ok := r.(*ssa.Extract); ok && e.Index == idx {
-			return fmt.Sprintf("%s#%d", v.Name(), idx), len(eng.Referrers(e)) > 0, true
+			return fmt.Sprintf("%s#%d", c.reg(v), idx), len(eng.Referrers(e)) > 0, true
 		}
 	}
-	return fmt.Sprintf("%s#%d", v.Name(), idx), false, true
+	return fmt.Sprintf("%s#%d", c.reg(v), idx), false, true
 }
+
+// reg is the explorer's name for register v as seen from an anchor function
+// (qualified when v lives in a transparent helper).
+func (c *Ctx) reg(v ssa.Value) string { return c.P.RegName(v) }
+
+// tops lists the anchor functions from which instruction in is executed: its
+// own function, or the callers of the transparent helper it lives in.
+func (c *Ctx) tops(in ssa.Instruction) []*ssa.Function { return c.P.Anchors(in.Parent()) }
 
 // ErrChecked decides E8 for one call: its error is used, and with the error
 // non-nil no success return of the enclosing function is reachable.
@@ -284,18 +354,25 @@ func (c *Ctx) ErrChecked(call ssa.CallInstruction) (ok bool, why string, at ssa.
 	if !used {
 		return false, "the error result is dropped (no use of it)", call, false
 	}
-	x := c.explorer(fn)
-	x.From = call
-	x.Assume = map[string]bool{"(" + key + "==nil)": false}
-	x.Target = func(in ssa.Instruction, st *eng.State) bool { return x.IsSuccessReturn(in, st) }
-	x.StopAtTarget = true
-	hits := x.Run()
-	if x.Exhausted {
-		return false, "state limit exceeded", call, true
+	tops := c.tops(call)
+	if len(tops) == 0 {
+		return false, "the helper containing this call has no caller", call, false
 	}
-	if len(hits) > 0 {
-		return false, fmt.Sprintf("with a non-nil error from this call a success return is still reachable (path %s)", eng.BlockTrace(fn, hits[0].Trace)), hits[0].Instr, false
+	for _, top := range tops {
+		x := c.explorer(top)
+		x.From = call
+		x.Assume = map[string]bool{"(" + key + "==nil)": false}
+		x.Target = func(in ssa.Instruction, st *eng.State) bool { return x.IsSuccessReturn(in, st) }
+		x.StopAtTarget = true
+		hits := x.Run()
+		if x.Exhausted {
+			return false, "state limit exceeded", call, true
+		}
+		if len(hits) > 0 {
+			return false, fmt.Sprintf("with a non-nil error from this call a success return of %s is still reachable (path %s)", c.name(top), eng.BlockTrace(top, hits[0].Trace)), hits[0].Instr, false
+		}
 	}
+	_ = fn
 	return true, "a non-nil error from this call reaches no success return", call, false
 }
 
@@ -355,6 +432,15 @@ func (c *Ctx) DerivesFrom(v ssa.Value, pred func(ssa.Value) bool, depth int) boo
 		seen[v] = true
 		if pred(v) {
 			return true
+		}
+		if rs := eng.ResolveAll(v); len(rs) != 1 || rs[0] != v {
+			// a helper parameter or result: the values it stands for
+			for _, r := range rs {
+				if rec(r, d+1) {
+					return true
+				}
+			}
+			return false
 		}
 		switch x := v.(type) {
 		case *ssa.MakeMap:
@@ -441,8 +527,14 @@ func (c *Ctx) isCallValueTo(v ssa.Value, names ...string) bool {
 
 // isFieldLoad: v loads field owner (e.g. "types.Stat.Mode").
 func isFieldLoad(v ssa.Value, owner string) bool {
-	o, _, _, ok := eng.LoadedField(v)
-	return ok && o == owner
+	// through transparent helpers: every value the operand can stand for
+	for _, r := range eng.ResolveAll(v) {
+		o, _, _, ok := eng.LoadedFieldRaw(r)
+		if !ok || o != owner {
+			return false
+		}
+	}
+	return true
 }
 
 // fieldStoresIn lists stores in fn whose address is field `owner`.
